@@ -38,6 +38,8 @@ M={
  'mutant-9':('SkyboxReferences feature threshold moved from WotLK to Cataclysm (needs ver = WotLK and a skybox)', lambda: rep(WT+'/file-formats/graphics/wow-wmo/src/version.rs','Self::SkyboxReferences => WmoVersion::Wotlk,','Self::SkyboxReferences => WmoVersion::Cataclysm,')),
  'mutant-10':('MOHD n_doodad_sets written from doodad_defs.len() (needs |sets| != |defs|)', lambda: rep(W,'writer.write_u32_le(wmo.doodad_sets.len() as u32)?;','writer.write_u32_le(wmo.doodad_defs.len() as u32)?;')),
  'mutant-11':('convert_materials clears the shadow-batch flags also when upgrading to MoP (pairs 1..4 -> 5 only)', lambda: rep(C,'if to_version < WmoVersion::Mop && from_version >= WmoVersion::Mop {','if (to_version < WmoVersion::Mop) != (from_version < WmoVersion::Mop) {')),
+ 'mutant-12':('MOBN: leaf face_start shifted by the parity of num_faces (BSP face ranges no longer tile)', lambda: rep(W,'writer.write_u32_le(node.first_face as u32)?;','writer.write_u32_le(if is_leaf { node.first_face as u32 + (node.num_faces as u32 & 1) } else { 0 })?;')),
+ 'mutant-13':('MOPR: side written as 0 for every reference (portal graph: both references of a portal on the same side)', lambda: rep(W,'writer.write_u16_le(r.side)?;','writer.write_u16_le(r.side & 0)?;')),
  'refactor-1':('MODS emitted before MODN/MODD (order of the format documentation)', lambda: rep(W,'''        self.write_doodad_definitions(writer, &wmo.doodad_defs, target_version)?;
         self.write_doodad_sets(writer, &wmo.doodad_sets)?;''','''        self.write_doodad_sets(writer, &wmo.doodad_sets)?;
         self.write_doodad_definitions(writer, &wmo.doodad_defs, target_version)?;''')),
